@@ -84,9 +84,22 @@ def _parse_case(draw):
     return spec
 
 
+def _mixed_case_names(draw, spec):
+    """one system in four: residue names with lower-case letters (OHter, mPEG ... are ordinary names)"""
+    if draw(st.integers(0, 3)) > 0:
+        return spec
+    import copy
+    spec = copy.deepcopy(spec)
+    for mt in spec["moltypes"]:
+        for r in mt["residues"]:
+            r["resname"] = r["resname"][0] + r["resname"][1:].lower() + "ter"[:5 - len(r["resname"])]
+    spec["mixed_case_names"] = True
+    return spec
+
+
 @st.composite
 def _start_case(draw):
-    spec = draw(gc.system(max_moltypes=2, max_res=6, max_total_mol=5, allow_vs=False))
+    spec = _mixed_case_names(draw, draw(gc.system(max_moltypes=2, max_res=6, max_total_mol=5, allow_vs=False)))
     used = sorted({n for n, _ in spec["molecules"]})
     if len(used) == 2 and draw(st.booleans()):
         # molecule names of which one is the beginning (or the end) of the other
@@ -128,7 +141,7 @@ def _start_case(draw):
 
 @st.composite
 def _lig_case(draw):
-    spec = draw(gc.system(max_moltypes=2, max_res=5, max_total_mol=3, allow_vs=False))
+    spec = _mixed_case_names(draw, draw(gc.system(max_moltypes=2, max_res=5, max_total_mol=3, allow_vs=False)))
     types = [a["name"] for a in spec["atomtypes"]]
     # the ligand molecule has one to three one-bead residues; a specification without residue part selects all
     nlres = draw(st.sampled_from([1, 2, 3]))
